@@ -9,12 +9,12 @@ SIZES = {"quick": 700, "thorough": 8000}
 PARALLEL = SC.PARALLEL
 SHARD = SC.SHARD
 COQ_TIMEOUT = SC.COQ_TIMEOUT
-RULE = 'API scripts (config ops in random order, Step/Solve, mid-run Set*, Finalize, exit requests) on DE/DE2/NM, dims 1-3, coarse/tie-heavy and smooth costs, vector costs with reducers, idempotent box-compatible constraints (pure/in place), penalties; non-trivial = at least 2 executed iterations'
+RULE = 'API scripts (config ops in random order, Step/Solve, mid-run Set*, Finalize, exit requests) on DE/DE2/NM/Powell, dims 1-3, coarse/tie-heavy and smooth costs, vector costs with reducers, idempotent box-compatible constraints (pure/in place), penalties; non-trivial = at least 2 executed iterations'
 TRUSTED = SC.TRUSTED
 ASSUMPTIONS = SC.ASSUMPTIONS
 META = dict(technique='Coq proof (invariant over op sequences of the solver machine; DE selection loop by induction) + trace correspondence by vm_compute',
-            level_text="Theorems (all costs, penalties, constraints, trial streams, op sequences): every logged call carries reduced cost + penalty at the logged point; for both DE solvers members and reported best are logged calls with the energy obtained there (or infinite), and the best never worsens. The machine (DE, DE2, Nelder-Mead) is tied to /repo by replaying generated API scripts through both and comparing evaluation log, population, energies and best after every operation; Nelder-Mead/Powell/wrappers' C01 clauses are checked by the oracle on the real runs.",
-            level_note='Trusted: Coq kernel+VM; harness (generators, instrumentation of /repo from outside, printers, oracles). User cost/constraints/penalty, DE trial vectors, Nelder-Mead candidate points, argsort permutation and post-decoration populations are oracle inputs (recorded in the correspondence, universally quantified in theorems). Not in the machine model (oracle only): Powell, ensembles, tight/clip range modes. No NaN energies.',
+            level_text="Theorems (all costs, penalties, constraints, trial streams, op sequences): every logged call carries reduced cost + penalty at the logged point; for both DE solvers members and reported best are logged calls with the energy obtained there (or infinite), and the best never worsens; for Nelder-Mead (idempotent constraints, clean runs) every vertex energy is the energy a real call returned at the constrained vertex, and once the initial evaluation is logged the reported best is an evaluated point with the energy obtained there, satisfies the constraints and is the last step-monitor record (C01_nm_reported_best); the order hypotheses are shown satisfiable in an executable instance (rationals with +infinity) and a concrete run meets the premises. The machine (DE, DE2, Nelder-Mead, Powell) is tied to /repo by replaying generated API scripts through both and comparing evaluation log, population, energies and best after every operation; Powell's and the wrappers' C01 clauses are checked by the oracle on the real runs.",
+            level_note='Trusted: Coq kernel+VM; harness (generators, instrumentation of /repo from outside, printers, oracles). User cost/constraints/penalty, DE trial vectors, Nelder-Mead candidate points, argsort permutation and post-decoration populations are oracle inputs (recorded in the correspondence, universally quantified in theorems). Powell: line-search probes and the returned index are oracle inputs. Not in the machine model (oracle only): ensembles, tight/clip range modes. No NaN energies.',
             design_ref="5/C01")
 
 _generate = SC.make_generate(**dict(allow_vector=True))
